@@ -458,6 +458,11 @@ func (g *graph) addBranch(startNode string, branch *GraphBranch, skipData bool) 
 		return fmt.Errorf("number of branches is 1")
 	}
 
+	// the graph works on a copy: the position among this node's branches and the data-flow flag belong to this
+	// attachment, while the caller's branch value may be attached elsewhere too (another node, another graph, a Workflow)
+	attached := *branch
+	branch = &attached
+
 	if _, ok := g.handlerPreBranch[startNode]; !ok {
 		g.handlerPreBranch[startNode] = [][]handlerPair{}
 	}
